@@ -49,7 +49,10 @@ func pathClass(line string) string {
 // (N <= 0: no injection). Returns the child result and the trace.
 func straceRun(job CrashJob, kind string, n int, traceFile string) (mon.ChildResult, []string) {
 	b, _ := json.Marshal(job)
-	args := []string{"-f", "-y", "-o", traceFile, "-e", "trace=" + straceSyscalls, "-e", "signal=none"}
+	// -f follows the threads of the Go runtime; -b execve detaches from helper processes (go-git runs
+	// `git upload-pack` / `git receive-pack` for local remotes): the fault model is the death of the git-bug
+	// process, not of the remote side's helper
+	args := []string{"-f", "-b", "execve", "-y", "-o", traceFile, "-e", "trace=" + straceSyscalls, "-e", "signal=none"}
 	if n > 0 {
 		args = append(args, "-e", fmt.Sprintf("inject=%s:signal=SIGKILL:when=%d", kind, n))
 	}
@@ -62,19 +65,60 @@ func straceRun(job CrashJob, kind string, n int, traceFile string) (mon.ChildRes
 // killSite finds the syscall at which the kill was delivered: the last traced call of the thread that
 // received the signal (strace logs the call that was being entered).
 func killSite(trace []string) (site string, killed bool) {
-	last := ""
+	last, unfinished := "", ""
+	defer func() {
+		if unfinished != "" {
+			site = unfinished
+		}
+	}()
 	for _, l := range trace {
 		if strings.Contains(l, "+++ killed by SIGKILL +++") {
 			killed = true
 		}
 		if m := straceLine.FindStringSubmatch(l); m != nil {
-			last = m[2] + ":" + pathClass(l)
+			cur := m[2] + ":" + pathClass(l)
 			if strings.Contains(l, "O_TRUNC") {
-				last += "(O_TRUNC)"
+				cur += "(O_TRUNC)"
+			}
+			last = cur
+			if strings.HasSuffix(strings.TrimSpace(l), "= ?") || strings.Contains(l, "<unfinished") {
+				unfinished = cur // the call that was being entered when the signal arrived
 			}
 		}
 	}
 	return last, killed
+}
+
+// crashStateClass looks for the on-disk states that a kill inside a non-atomic write of a dependency leaves
+// behind. Such a state is the root cause of whatever symptom follows (unreadable entity, failing fetch, cache
+// that does not open...), so findings are keyed by it rather than by the symptom.
+func crashStateClass(victim string) string {
+	class := ""
+	_ = filepath.Walk(filepath.Join(victim, ".git", "refs"), func(path string, info os.FileInfo, err error) error {
+		if err != nil || info.IsDir() || info.Size() > 0 || class != "" {
+			return nil
+		}
+		switch {
+		case strings.Contains(path, "/refs/remotes/"):
+			class = "empty-ref-file:remote-tracking"
+		case strings.Contains(path, "/refs/bugs/") || strings.Contains(path, "/refs/identities/"):
+			class = "empty-ref-file:entity"
+		default:
+			class = "empty-ref-file:other"
+		}
+		return nil
+	})
+	if class != "" {
+		return class
+	}
+	if info, err := os.Stat(filepath.Join(victim, ".git", "git-bug", "lock")); err == nil && info.Size() == 0 {
+		return "empty-lock-file"
+	}
+	out, err := exec.Command("git", "-C", victim, "fsck", "--connectivity-only").CombinedOutput()
+	if err != nil && (strings.Contains(string(out), "missing") || strings.Contains(string(out), "broken link")) {
+		return "objects-missing-below-a-stored-commit"
+	}
+	return ""
 }
 
 // c06Strace is tier 2: every traced syscall position of the scenario.
@@ -132,6 +176,7 @@ func c06Strace(r *mon.Run, sc crashScenario, pristine string, ids map[string]str
 		return
 	}
 	type outcome struct {
+		state     string // crashStateClass after the kill
 		site      string
 		key, what string
 		incon     string
@@ -152,22 +197,32 @@ func c06Strace(r *mon.Run, sc crashScenario, pristine string, ids map[string]str
 		if !killed {
 			return outcome{completed: true}
 		}
+		state := crashStateClass(victim)
 		S, scr := childState(victim, sc.Cache)
 		if scr.Died() {
-			return outcome{site: site, key: "state-reader-crashed:" + mon.PanicSite(scr.Out), what: "a fresh process reading the repository after the crash died:\n" + mon.CrashExcerpt(scr.Out)}
+			return outcome{site: site, state: state, key: "state-reader-crashed:" + mon.PanicSite(scr.Out), what: "a fresh process reading the repository after the crash died:\n" + mon.CrashExcerpt(scr.Out)}
 		}
 		if k, wh := judgeCrash(P, Q, S, site); k != "" {
-			return outcome{site: site, key: k, what: wh}
+			return outcome{site: site, state: state, key: k, what: wh}
+		}
+		if keep := os.Getenv("VERIF_C06_KEEP"); keep != "" {
+			_ = copyTree(filepath.Join(w, "w"), filepath.Join(keep, fmt.Sprintf("%s-%d-before-repeat", sc.Name, i)))
+			_ = copyTree(filepath.Join(w, "trace"), filepath.Join(keep, fmt.Sprintf("%s-%d-before-repeat", sc.Name, i), "trace"))
 		}
 		rc := runJob(CrashJob{Dir: victim, Scenario: sc.Name, KillAt: -1, Ids: ids})
+		if rc.ExitCode == 0 && !rc.Died() {
+			if keep := os.Getenv("VERIF_C06_KEEP"); keep != "" {
+				_ = os.RemoveAll(filepath.Join(keep, fmt.Sprintf("%s-%d-before-repeat", sc.Name, i)))
+			}
+		}
 		if rc.ExitCode != 0 || rc.Died() {
-			return outcome{site: site, key: "repeat-fails:" + errKey(lastLine(rc.Out)), what: "repeating the interrupted action fails: " + mon.CrashExcerpt(rc.Out)}
+			return outcome{site: site, state: state, key: "repeat-fails:" + errKey(lastLine(rc.Out)), what: "repeating the interrupted action fails: " + mon.CrashExcerpt(rc.Out)}
 		}
 		R, _ := childState(victim, sc.Cache)
 		if k, wh := judgeRepeat(P, Q, R); k != "" {
-			return outcome{site: site, key: k, what: wh}
+			return outcome{site: site, state: state, key: k, what: wh}
 		}
-		return outcome{site: site}
+		return outcome{site: site, state: state}
 	})
 	for i, o := range outs {
 		if o.incon != "" {
@@ -181,6 +236,14 @@ func c06Strace(r *mon.Run, sc crashScenario, pristine string, ids map[string]str
 		r.Case(fmt.Sprintf("strace/%s/%s", sc.Name, o.site), true)
 		r.Count("strace_kills", 1)
 		r.Seen("crash_sites_syscall", o.site)
+		if o.state != "" {
+			r.Seen("post_crash_states_of_non_atomic_writes", o.state)
+		}
+		if o.key != "" && o.state != "" {
+			r.Violation("state-after-kill:"+o.state, fmt.Sprintf("%s -- the kill left %s behind [scenario %s, SIGKILL on entering traced syscall #%d of a thread: %s]", o.what, o.state, sc.Name, i+1, o.site),
+				map[string]any{"scenario": sc.Name, "when": i + 1, "site": o.site, "tier": "strace", "state": o.state})
+			continue
+		}
 		if o.key != "" {
 			r.Violation(fmt.Sprintf("%s:strace-before-%s", o.key, o.site), fmt.Sprintf("%s [scenario %s, SIGKILL on entering traced syscall #%d of a thread: %s]", o.what, sc.Name, i+1, o.site),
 				map[string]any{"scenario": sc.Name, "when": i + 1, "site": o.site, "tier": "strace"})
